@@ -1186,6 +1186,7 @@ func (a *Activation) loopHead(li *loopInfo, b *ssa.BasicBlock, st *State) *State
 		}
 		return !mods[name]
 	})
+	nst.base.loopHavoc = true
 	// refined havoc: arrays only written at loop-invariant locations or at objects allocated inside the loop
 	if !all {
 		t.regArray("$now", "Int")
